@@ -331,20 +331,24 @@ class TaskManager(rpu.ClientComponent):
 
                 self._log.debug('pilot %s is final', pid)
 
+                # the state subscriber thread updates the same tasks
+                # (`_update_tasks`), so we hold the same lock
                 tasks = list()
-                for task in self._tasks.values():
+                with self._tasks_lock:
 
-                    # only tasks bound to this pilot and not yet final
-                    if task.pilot != pid or task.state in rps.FINAL:
-                        continue
+                    for task in self._tasks.values():
 
-                    update = {'uid'             : task.uid,
-                              'exception'       : 'RuntimeError("pilot died")',
-                              'exception_detail': 'pilot %s is final' % pid,
-                              'state'           : rps.FAILED}
+                        # only tasks bound to this pilot and not yet final
+                        if task.pilot != pid or task.state in rps.FINAL:
+                            continue
 
-                    task._update(update)
-                    tasks.append(task.as_dict())
+                        update = {'uid'             : task.uid,
+                                  'exception'       : 'RuntimeError("pilot died")',
+                                  'exception_detail': 'pilot %s is final' % pid,
+                                  'state'           : rps.FAILED}
+
+                        task._update(update)
+                        tasks.append(task.as_dict())
 
                 # final tasks are not pushed
                 self.advance(tasks, publish=True, push=False)
